@@ -367,3 +367,55 @@ Definition core_load_with {A} (ld : decode_outcome A -> res exn (option A))
   end.
 Definition core_load {A} := @core_load_with A load.
 Definition core_load_old {A} := @core_load_with A load_old.
+
+(* ------------------------------------------------------------------ evaluation helpers
+   (used by the generated correspondence files; no theorem depends on them) *)
+
+Fixpoint lookup_idx (p : path) (l : list (path * bytes)) (i : Z) : option Z :=
+  match l with
+  | [] => None
+  | (q, _) :: t => if path_eqb p q then Some i else lookup_idx p t (i + 1)
+  end.
+
+(* A start state holding exactly the given files. *)
+Definition init_files (l : list (path * bytes)) : kstate :=
+  mkK (fun p => lookup_idx p l 1)
+      (fun i => nth (Z.to_nat (i - 1)) (map snd l) [])
+      (Z.of_nat (length l) + 1)
+      (fun _ => None).
+
+Fixpoint assoc_path (p : path) (l : list (path * bytes)) : option bytes :=
+  match l with
+  | [] => None
+  | (q, b) :: t => if path_eqb p q then Some b else assoc_path p t
+  end.
+
+(* The model's directory after `ops`, restricted to the candidate names, equals `actual`. *)
+Definition listing_ok (ops : list kop) (files : list (path * bytes)) (cands : list path)
+           (actual : list (path * bytes)) : bool :=
+  let s := run ops (init_files files) in
+  forallb (fun p => obytes_eqb (read s p) (assoc_path p actual)) cands.
+
+Definition old_of (target : path) (files : list (path * bytes)) : option bytes := assoc_path target files.
+
+Definition atomic_files_b (ops : list kop) (files : list (path * bytes)) (target : path) (new : bytes) : bool :=
+  atomic_from (init_files files) ops target (old_of target files) new.
+
+(* Prediction for a handled failure at call j of a protocol-shaped trace: class of the
+   target afterwards (0 old, 1 new, 2 neither) and whether any candidate name other than
+   the target exists. *)
+Definition fault_prediction (ops : list kop) (j : nat) (target : path) (old : option bytes)
+           (cands : list path) : Z * bool :=
+  let s := fault_run ops j (shape_tmp ops) [] (init target old) in
+  (class_of s target old (shape_new ops),
+   forallb (fun p => path_eqb p target || match names s p with None => true | Some _ => false end) cands).
+
+(* Compact transport of long byte strings in generated files: 6 bytes per word,
+   little endian; `unpack len words` restores the byte list. *)
+Fixpoint unpack_word (n : nat) (w : Z) : bytes :=
+  match n with
+  | O => []
+  | S k => (w mod 256) :: unpack_word k (w / 256)
+  end.
+Definition unpack (len : Z) (ws : list Z) : bytes :=
+  firstn (Z.to_nat len) (flat_map (unpack_word 6) ws).
